@@ -215,6 +215,75 @@ class DefGen:
         return defs
 
 
+def systematic():
+    """One definition per primitive type enumerating tagging x ignorable x default x nullability
+    (the product the random generator only samples), plus struct/array variants."""
+    defs = []
+    DEFAULTS = {"bool": "true", "int8": "-1", "int16": "0x7f", "int32": "0x7fffffff", "int64": "-1", "uint16": "0xff",
+                "uint32": "1", "uint64": "0", "float64": None, "string": "abc", "bytes": None, "uuid": None, "records": None}
+    for ti, ty in enumerate(PRIMS):
+        fields = []
+        k = 0
+        for tagmode in ("untagged", "tagged-all", "tagged-subset", "tagged-only"):
+            for ign in (False, True):
+                for dflt in (False, True):
+                    for nul in (False, True):
+                        if nul and ty not in NULLABLE_PRIMS:
+                            continue
+                        if dflt and DEFAULTS[ty] is None and not nul:
+                            continue
+                        if ty == "bool" and tagmode != "untagged" and ign and not dflt:
+                            continue        # generator emits `default=false` (NameError): outside the supported subset
+                        f = {"name": f"F{k}X{ty.capitalize()}", "type": ty, "versions": "0+"}
+                        k += 1
+                        if tagmode == "tagged-all":
+                            f["versions"] = "2+"; f["taggedVersions"] = "2+"; f["tag"] = k
+                        elif tagmode == "tagged-subset":
+                            f["taggedVersions"] = "3+"; f["tag"] = k
+                        elif tagmode == "tagged-only":
+                            f.pop("versions"); f["taggedVersions"] = "2-3"; f["tag"] = k
+                        if ign:
+                            f["ignorable"] = True
+                        if nul:
+                            f["nullableVersions"] = "1+" if tagmode != "tagged-only" else "2+"
+                        if dflt:
+                            f["default"] = DEFAULTS[ty] if DEFAULTS[ty] is not None else "null"
+                            if f["default"] == "null":
+                                f["nullableVersions"] = "0+"
+                        fields.append(f)
+        defs.append({"apiKey": 2000 + ti, "type": "request", "name": f"Sys{ty.capitalize()}Request", "validVersions": "0-3",
+                     "flexibleVersions": "2+", "fields": fields})
+        defs.append({"apiKey": 2000 + ti, "type": "response", "name": f"Sys{ty.capitalize()}Response", "validVersions": "0-3",
+                     "flexibleVersions": "2+", "fields": [{"name": "ErrorCode", "type": "int16", "versions": "0+"},
+                                                          {"name": "ThrottleTimeMs", "type": "int32", "versions": "1+", "ignorable": True}]})
+    # structs and arrays: nullable / tagged variants
+    sf = []
+    k = 0
+    for arr in (False, True):
+        for tagmode in ("untagged", "tagged-all", "tagged-subset"):
+            for nul in (False, True):
+                for dflt in (False, True):
+                    if dflt and (arr or not nul):
+                        continue
+                    if not arr and nul and tagmode != "untagged" and not dflt:
+                        continue    # optional tagged struct without default: kio refuses (outside the subset)
+                    f = {"name": f"S{k}Field", "type": ("[]" if arr else "") + f"S{k}Struct", "versions": "0+",
+                         "fields": [{"name": "Anchor", "type": "int32", "versions": "0+"},
+                                    {"name": "Later", "type": "string", "versions": "2+", "nullableVersions": "3+"}]}
+                    k += 1
+                    if tagmode == "tagged-all":
+                        f["versions"] = "2+"; f["taggedVersions"] = "2+"; f["tag"] = k
+                    elif tagmode == "tagged-subset":
+                        f["taggedVersions"] = "3+"; f["tag"] = k
+                    if nul:
+                        f["nullableVersions"] = "1+"
+                    if dflt:
+                        f["default"] = "null"; f["nullableVersions"] = "0+"
+                    sf.append(f)
+    defs.append({"type": "data", "name": "SysStructsData", "validVersions": "0-3", "flexibleVersions": "2+", "fields": sf})
+    return defs
+
+
 # ---- printers ---------------------------------------------------------------------------------
 def coq_field(f) -> str:
     fields = f.get("fields")
